@@ -643,6 +643,9 @@ package larking
 //@   count ends `sh.HandleRPC(ctx, &stats.End{`
 //@   ensures [one-snapshot C12] loads == 1
 //@   ensures [end-after-begin C18] begins == ends
+//@   count trailerCopies `setOutgoingHeader(w.Header(), stream.trailer)`
+//@   assert at "if herr != nil {" #2 [reply-headers-do-not-depend-on-the-stats-handler C18] trailerCopies == 1
+//@   witness verifWitnessStatsTransparent for reply-headers-do-not-depend
 //@   assert at "herr := hd.handler(&m.opts, stream)" [websocket-stream-carries-the-receive-limit C08] stream.maxRecv == m.opts.maxReceiveMessageSize
 //@   assert at "herr := hd.handler(&m.opts, stream)" [websocket-stream-carries-the-stats-handler C18] stream.stats == m.opts.statsHandler
 // (a close frame carries the code and at most 123 bytes of UTF-8 text; gobwas/ws crops a
